@@ -5151,13 +5151,15 @@ bool SoPlexBase<R>::getBasisInverseTimesVecReal(R* rhs, R* sol, bool unscale)
             assert(index < numRows());
             assert(!_solver.isRowBasic(index));
 
-            x[i] = v[index] - (rowVectorRealInternal(index) * VectorBase<R>(numCols(), y.get_ptr()));
+            R act = rowVectorRealInternal(index) * VectorBase<R>(numCols(), y.get_ptr());
 
             if(adaptScaling)
             {
                scaleExp = -_scaler->getRowScaleExp(index);
-               x[i] = spxLdexp(x[i], scaleExp);
+               act = spxLdexp(act, scaleExp);
             }
+
+            x[i] = v[index] - act;
          }
          else
          {
